@@ -865,6 +865,32 @@ def stmt_bounds(st, i, j, lo, hi):
     return a, b
 
 
+def _slice_prelude_lets(ost, body_open, loop_kw, body_text, sig):
+    """`let NAME = ROOT.f.g;` statements (non-mut, no calls) that precede the sliced loop in the enclosing function, whose ROOT is a parameter
+    of the slice signature and whose NAME the loop body mentions"""
+    params = set(re.findall(r'(?:\(|,)\s*(?:mut\s+)?([a-z_]\w*)\s*:', sig))
+    used = set(re.findall(r'[A-Za-z_]\w*', body_text))
+    out = []
+    i = body_open + 1
+    while i < loop_kw:
+        if ost[i][1] == 'let' and ost[i + 1][0] == 'ident' and ost[i + 1][1] != 'mut' and ost[i - 1][1] in (';', '{', '}') and ost[i + 2][1] == '=':
+            name = ost[i + 1][1]
+            k = i + 3
+            toks = []
+            ok = True
+            while k < loop_kw and ost[k][1] != ';':
+                if not (ost[k][0] == 'ident' or ost[k][1] == '.') or ost[k][1] in ('as', 'mut'):
+                    ok = False
+                    break
+                toks.append(ost[k][1])
+                k += 1
+            if ok and toks and toks[0] in params and '.' in toks and name in used and name not in params:
+                out.append('let %s = %s;' % (name, ''.join(toks)))
+            i = k
+        i += 1
+    return out
+
+
 def _hoist_invariants(fs, st, log):
     fo = next(i for i, t in enumerate(st) if t[1] == '{')
     fc = rtok.match_close(st, fo)
@@ -1279,6 +1305,13 @@ def build_fn(fs, repo, effectful, table_keys, canary=False):
         body_text = otext[s_off:e_off]
         if fs.slice['kind'] == 'loopbody' and fs.tail:
             body_text = rw_continue_to_return(body_text, fs.tail, log)
+        if fs.slice['kind'] == 'loopbody':
+            # locals the enclosing function binds *before* the loop to a pure place expression over things the slice has as parameters
+            # (`let no_clobber = config.no_clobber;` hoisted out of the loop) are re-bound at the start of the slice, on the same line
+            pre = _slice_prelude_lets(ost, body_open, loops[n - 1][0], body_text, fs.sig)
+            if pre:
+                body_text = ' ' + ' '.join(pre) + body_text
+                log.append('R10 %d local(s) bound before the loop to a place expression re-bound in the slice: %s' % (len(pre), ' '.join(pre)))
         line0 = outer['start_line'] + otext.count('\n', 0, s_off)
         tail = ('\n' + fs.tail) if fs.tail else ''
         text = fs.sig + ' {' + body_text + tail + '\n}'
